@@ -28,7 +28,8 @@ Scn == [irt : Irt, sirt : Sirt, dest : Dest, aud : Aud, recip : Recip, allow : B
         conv : BOOLEAN, regex : BOOLEAN, binding : Bind, enc : BOOLEAN, endpoint : {"configured", "otherBindingOnly", "triples"},
         \* a second bearer confirmation with the same window and InResponseTo whose Recipient is ours or somebody else's,
         \* placed before or after the first one
-        conf2 : {"absent", "own", "foreign"}, conf2first : BOOLEAN,
+        \* ("otherIrt": our Recipient, but the confirmation names another request -- the other outstanding one)
+        conf2 : {"absent", "own", "foreign", "otherIrt"}, conf2first : BOOLEAN,
         \* the application remembers the same came_from for both outstanding requests (same page in two tabs)
         sameFrom : BOOLEAN,
         \* an authentication response over a browser binding, or the answer to an attribute query (synchronous, SOAP:
@@ -61,7 +62,7 @@ Scenarios ==
     \cup Mk({"id1"}, {"id1"}, Dest \ {"patternOnly"}, {"me"}, Recip, BOOLEAN, Bind, {FALSE}, {"triples"}, {"absent"}, {FALSE}, {FALSE}, {"authn"}, BOOLEAN)
     \cup Mk({"id1"}, {"id1"}, {"none"}, Aud, {"url"}, {FALSE}, {"post"}, {FALSE}, {"configured"}, {"absent"}, {FALSE}, {FALSE}, {"attribute"}, {FALSE})
     \cup Mk({"id1"}, {"id1", "id2"}, {"own", "none"}, {"me"}, Recip, {FALSE}, Bind, BOOLEAN, {"configured"}, {"absent"}, {FALSE}, {TRUE}, {"authn"}, BOOLEAN)
-    \cup Mk({"id1"}, {"id1"}, {"own", "none"}, {"me"}, Recip, {FALSE}, Bind, BOOLEAN, {"configured"}, {"own", "foreign"}, BOOLEAN, {FALSE}, {"authn"}, BOOLEAN)
+    \cup Mk({"id1"}, {"id1"}, {"own", "none"}, {"me"}, Recip, {FALSE}, Bind, BOOLEAN, {"configured"}, {"own", "foreign", "otherIrt"}, BOOLEAN, {FALSE}, {"authn"}, BOOLEAN)
 ASSUME \A s \in Scenarios : s \in Scn /\ WellFormed(s)
 
 \* audience restrictions as a sequence of sets of audiences
@@ -86,7 +87,7 @@ Loads ==
     /\ pc = "loads"
     /\ IF scn.mtype = "attribute" THEN Goto("conditions")          \* synchronous hop: asynchop is off
        ELSE IF scn.irt \in Outstanding
-       THEN IF ~scn.enc /\ scn.sirt # scn.irt      \* check_subject_confirmation_in_response_to: plain assertions only,
+       THEN IF ~scn.enc /\ (scn.sirt # scn.irt \/ scn.conf2 = "otherIrt")      \* check_subject_confirmation_in_response_to: plain assertions only,
             THEN Reject                            \* an absent InResponseTo (None) differs as well
             ELSE cameFrom' = scn.irt /\ pc' = "destination" /\ UNCHANGED <<scn, verdict>>
        ELSE IF scn.allow THEN Goto("destination") ELSE Reject
@@ -115,7 +116,7 @@ Subject ==
     /\ LET cf == IF cameFrom = "none" /\ scn.sirt \in Outstanding THEN scn.sirt ELSE cameFrom
            bearerBad == cameFrom = "none" /\ scn.sirt = "idX" /\ ~scn.allow
            \* repaired: the comparison of loads is repeated on the assertion actually used
-           lateBad == Fixed /\ scn.irt \in Outstanding /\ scn.sirt # scn.irt
+           lateBad == Fixed /\ scn.irt \in Outstanding /\ (scn.sirt # scn.irt \/ scn.conf2 = "otherIrt")
        IN IF scn.mtype = "attribute" THEN verdict' = "accept" /\ pc' = "done" /\ UNCHANGED <<scn, cameFrom>>
           ELSE IF bearerBad \/ ~RecipOK \/ (~scn.allow /\ cf = "none") \/ lateBad
           THEN Reject
@@ -127,14 +128,14 @@ Subject ==
 AudOK == \A i \in 1..Len(Restr(scn.aud)) : "me" \in Restr(scn.aud)[i]
 DestAllowed == scn.dest = "none" \/ (scn.dest = "own" /\ scn.endpoint \in {"configured", "triples"})
                \/ (scn.regex /\ scn.dest \in {"otherBinding", "patternOnly"})
-Solicited == scn.irt \in Outstanding /\ (scn.sirt = "none" \/ scn.sirt = scn.irt)
+Solicited == scn.irt \in Outstanding /\ (scn.sirt = "none" \/ scn.sirt = scn.irt) /\ scn.conf2 # "otherIrt"
 MustReject == \/ ~AudOK
               \/ ~DestAllowed
               \/ (scn.conv /\ scn.recip \in {"foreign", "otherBinding"})
               \/ (scn.conv /\ scn.conf2 = "foreign")
               \/ (scn.mtype = "authn" /\ ~scn.allow /\ ~Solicited)
 \* the fully conformant shapes (the property is an "only if"; nothing else is demanded to pass)
-MustAccept == /\ scn.endpoint = "configured" /\ AudOK /\ scn.conf2 # "foreign" /\ scn.dest \in {"own", "none"} /\ scn.recip \in {"url"} \cup (IF scn.conv THEN {"entityid"} ELSE {})
+MustAccept == /\ scn.endpoint = "configured" /\ AudOK /\ scn.conf2 \notin {"foreign", "otherIrt"} /\ scn.dest \in {"own", "none"} /\ scn.recip \in {"url"} \cup (IF scn.conv THEN {"entityid"} ELSE {})
               /\ \/ (scn.irt = "id1" /\ scn.sirt = "id1")
                  \/ (scn.allow /\ scn.irt = "none" /\ scn.sirt = "none")
 ExpectedCameFrom == IF scn.mtype = "authn" /\ scn.irt \in Outstanding THEN scn.irt ELSE "unspecified"
